@@ -195,7 +195,9 @@ func (s *state) walk(node ast.Node) {
 				s.js(",")
 			}
 			first = false
-			s.js("\"", k, "\"", ":")
+			s.js("\"")
+			template.JSEscape(s.wr, []byte(k))
+			s.js("\":")
 			s.walk(node.Items[k])
 		}
 		s.js("}")
